@@ -660,6 +660,22 @@ func RandEnvelope(r *kernel.Rand, t wire.Type, s ValShape) (*wire.Envelope, Meta
 	if r.Bool(0.05) {
 		env.Recipient = map[wallet.BackendID]wire.Address{}
 	}
+	if rr := kernel.NewRand(kernel.Derive(r.Uint64(), "envelope-backend-ids")); rr.Bool(0.3) {
+		// peers reachable under other or several backend ids; the addresses come
+		// from a handful, so that over the envelopes of a process the same
+		// address occurs under different ids and in different company
+		for _, m := range []*map[wallet.BackendID]wire.Address{&env.Sender, &env.Recipient} {
+			if !rr.Bool(0.7) {
+				continue
+			}
+			out := map[wallet.BackendID]wire.Address{}
+			for k, n, id := 0, rr.Range(1, 3), rr.Intn(3); k < n; k++ {
+				out[wallet.BackendID(id)] = WireAddr(rr.Uint64() % 4)[channel.TestBackendID]
+				id += rr.Range(1, 3)
+			}
+			*m = out
+		}
+	}
 	// metadata selectors address the message; lift them to the envelope
 	lift := func(f func(any) *channel.State) func(any) *channel.State {
 		if f == nil {
